@@ -319,6 +319,313 @@ theorem flip_adapter_sound (o : Op K (X → K)) (t0 t s : Nat) (ht0 : t0 < 4) (h
     rw [den_adapter _ _ _ _ _ _ _ (xor_lt4 t0 ht0 t ht) hs]
     rw [xor_assoc4 s hs t0 ht0 t ht]
 
+/-! ### Part 4 — ChainOperator.make / simplify preserve the action (whole pass, all four modes)
+
+`mprod rev l` is the product of `l` in list order (`rev = false`) or reversed order; `revOf s` says which one mode `s` uses.
+Hypotheses: the operands contain no block-diagonal operators (`okC`; their merging needs a block structure on `X`), nested
+chains are non-empty, diagonal transformations are 0..3, and `re c = c` for scalings the code treats as real. -/
+
+/-- `den (chain ops)` as a mode-ordered product -/
+theorem den_chain_mprod (ops : List (Op K (X → K))) (s : Nat) (hs : s < 4) (hne : ops ≠ []) :
+    den S (Op.chain ops) (1 <<< s) = mprod (revOf s) (ops.map (den S · (1 <<< s))) := by
+  rw [den, chainOrder_eval s hs]
+  have hne' : ops.map (den S · (1 <<< s)) ≠ [] := by simpa using hne
+  unfold revOf mprod
+  by_cases h : s &&& 1 = (s >>> 1) &&& 1
+  · simp only [h, decide_true, Bool.not_true, Bool.false_eq_true, if_false]
+    exact prodR_msem _ _ _ _ _ hne'
+  · simp only [h, decide_false, Bool.not_false, if_true]
+    exact prodR_msem _ _ _ _ _ (by simpa using hne)
+
+/-- merging adjacent diagonal operators of a chain preserves the (mode-ordered) product -/
+theorem chainMergeDiag_sound (l : List (Op K (X → K))) (s : Nat) (hs : s < 4) (hd : ∀ o ∈ l, okC o = true) :
+    mprod (revOf s) ((chainMergeDiag S l).map (den S · (1 <<< s))) = mprod (revOf s) (l.map (den S · (1 <<< s))) ∧
+    (∀ o ∈ chainMergeDiag S l, okC o = true) := by
+  fun_induction chainMergeDiag S l with
+  | case1 a b rest hab ih =>
+    simp only [Bool.and_eq_true] at hab
+    obtain ⟨dm1, d1, t1, dt1, rfl⟩ := isDiag_cases a hab.1
+    obtain ⟨dm2, d2, t2, dt2, rfl⟩ := isDiag_cases b hab.2
+    have h1 : t1 < 4 := by simpa [okC, diagOK, isBlock] using hd (Op.diag dm1 d1 t1 dt1) (by simp)
+    have h2 : t2 < 4 := by simpa [okC, diagOK, isBlock] using hd (Op.diag dm2 d2 t2 dt2) (by simp)
+    have hd' : ∀ o ∈ diagCombineProd S (Op.diag dm1 d1 t1 dt1) (Op.diag dm2 d2 t2 dt2) :: rest, okC o = true := by
+      intro o ho
+      simp only [List.mem_cons] at ho
+      rcases ho with rfl | ho
+      · simp [diagCombineProd, okC, diagOK, isBlock]
+      · exact hd o (by simp [ho])
+    obtain ⟨ih1, ih2⟩ := ih hd'
+    refine ⟨?_, ih2⟩
+    rw [ih1]
+    simp only [List.map_cons]
+    rw [mprod_cons, mprod_cons, mprod_cons, diagCombineProd_sound isReal re blocks leaf _ _ _ _ _ _ _ _ _ h1 h2 hs]
+    cases revOf s
+    · simp [Matrix.mul_assoc]
+    · simp only [if_true]
+      rw [diagCombineProd_comm isReal re blocks leaf _ _ _ _ _ _ _ _ _ h1 h2 hs, Matrix.mul_assoc]
+  | case2 a b rest hab ih =>
+    have hd' : ∀ o ∈ b :: rest, okC o = true := fun o ho => hd o (by simp [List.mem_cons] at ho ⊢; tauto)
+    obtain ⟨ih1, ih2⟩ := ih hd'
+    refine ⟨?_, ?_⟩
+    · simp only [List.map_cons] at ih1 ⊢
+      rw [mprod_cons, mprod_cons (a := den S a (1 <<< s)), ih1]
+    · intro o ho
+      simp only [List.mem_cons] at ho
+      rcases ho with rfl | ho
+      · exact hd _ (by simp)
+      · exact ih2 o ho
+  | case3 l hl => exact ⟨rfl, hd⟩
+
+/-- collecting the real scalings of a chain: the product of the remaining operators times the collected factor -/
+theorem chainCollect_sound (hre : ∀ c, isReal c = true → re c = c) (l : List (Op K (X → K))) (init : K) (s : Nat) (hs : s < 4) :
+    modeScalar (l.foldl (chainCollectStep S) init) s •
+        mprod (revOf s) ((l.filter (fun o => !isRealScaling S o)).map (den S · (1 <<< s))) =
+      modeScalar init s • mprod (revOf s) (l.map (den S · (1 <<< s))) := by
+  induction l generalizing init with
+  | nil => simp
+  | cons o os ih =>
+    by_cases hrs : isRealScaling S o = true
+    · obtain ⟨d, c, dt, rfl⟩ : ∃ d c dt, o = Op.scaling d c dt := by
+        cases o <;> simp [isRealScaling] at hrs
+        exact ⟨_, _, _, rfl⟩
+      have hc : isReal c = true := by simpa [isRealScaling, msem] using hrs
+      simp only [List.foldl_cons, List.filter_cons, hrs, Bool.not_true, Bool.false_eq_true, if_false, List.map_cons]
+      have : chainCollectStep S init (Op.scaling d c dt) = init * c := by
+        simp [chainCollectStep, msem, hc, hre c hc]
+      rw [this, ih, den_scaling isReal re blocks leaf d c dt s hs, mprod_cons_smul, mprod_one_cons,
+        modeScalar_mul _ _ _ hs, smul_smul]
+    · have hrs' : isRealScaling S o = false := by simpa using hrs
+      have hstep : chainCollectStep S init o = init := by
+        cases o <;> simp [chainCollectStep]
+        rename_i d c dt
+        have : isReal c = false := by simpa [isRealScaling, msem] using hrs'
+        simp [msem, this]
+      simp only [List.foldl_cons, List.filter_cons, hrs', Bool.not_false, if_true, List.map_cons, hstep]
+      rw [mprod_cons, mprod_cons]
+      have ih' := ih init
+      generalize revOf s = r at ih' ⊢
+      cases r
+      · simp only [Bool.false_eq_true, if_false]
+        rw [← Matrix.mul_smul, ih', Matrix.mul_smul]
+      · simp only [if_true]
+        rw [← Matrix.smul_mul, ih', Matrix.smul_mul]
+
+/-- the collected factor absorbed into the first diagonal operator -/
+theorem chainAbsorb_sound (f : K) (l : List (Op K (X → K))) (s : Nat) (hs : s < 4) (hd : ∀ o ∈ l, okC o = true) :
+    modeScalar (chainAbsorb S f l).2 s • mprod (revOf s) ((chainAbsorb S f l).1.map (den S · (1 <<< s))) =
+      modeScalar f s • mprod (revOf s) (l.map (den S · (1 <<< s))) ∧ (∀ o ∈ (chainAbsorb S f l).1, okC o = true) := by
+  induction l with
+  | nil => simp [chainAbsorb]
+  | cons o os ih =>
+    by_cases hdg : isDiag o = true
+    · obtain ⟨dm, d, t, dt, rfl⟩ := isDiag_cases o hdg
+      have ht : t < 4 := by simpa [okC, diagOK, isBlock] using hd (Op.diag dm d t dt) (by simp)
+      simp only [chainAbsorb, hdg, if_true, List.map_cons]
+      refine ⟨?_, ?_⟩
+      · rw [diagScale_sound isReal re blocks leaf dm d t dt f s ht hs, mprod_cons_smul]
+        have : (msem isReal re blocks leaf).kone = (1 : K) := rfl
+        rw [this, modeScalar_one s hs, one_smul]
+      · intro o ho
+        simp only [List.mem_cons] at ho
+        rcases ho with rfl | ho
+        · simp [diagScale, okC, diagOK, isBlock]
+        · exact hd o (by simp [ho])
+    · have hdg' : isDiag o = false := by simpa using hdg
+      have hd' : ∀ o ∈ os, okC o = true := fun x hx => hd x (by simp [hx])
+      obtain ⟨ih1, ih2⟩ := ih hd'
+      simp only [chainAbsorb, hdg', Bool.false_eq_true, if_false, List.map_cons]
+      refine ⟨?_, ?_⟩
+      · rw [mprod_cons, mprod_cons]
+        generalize revOf s = r at ih1 ⊢
+        cases r
+        · simp only [Bool.false_eq_true, if_false]
+          rw [← Matrix.mul_smul, ih1, Matrix.mul_smul]
+        · simp only [if_true]
+          rw [← Matrix.smul_mul, ih1, Matrix.smul_mul]
+      · intro x hx
+        simp only [List.mem_cons] at hx
+        rcases hx with rfl | hx
+        · exact hd _ (by simp)
+        · exact ih2 x hx
+
+/-- un-nesting chains keeps the mode-ordered product (nested chains are non-empty) -/
+theorem chainFlatten_sound (ops : List (Op K (X → K))) (s : Nat) (hs : s < 4)
+    (hne : ∀ o ∈ ops, ∀ l, o = Op.chain l → l ≠ []) :
+    mprod (revOf s) ((chainFlatten ops).map (den S · (1 <<< s))) =
+      mprod (revOf s) (ops.map (den S · (1 <<< s))) := by
+  unfold chainFlatten
+  induction ops with
+  | nil => rfl
+  | cons o os ih =>
+    have ih' := ih (fun x hx => hne x (by simp [hx]))
+    simp only [List.flatMap_cons, List.map_append, List.map_cons]
+    rw [mprod_append, mprod_cons, ih']
+    cases o with
+    | chain l =>
+      dsimp only
+      rw [den_chain_mprod isReal re blocks leaf l s hs (hne _ (by simp) l rfl)]
+    | _ => simp [mprod_singleton]
+
+/-- the leftover factor appended as a ScalingOperator (or nothing when it is 1 and the chain is non-empty) -/
+theorem chainAppend_sound (l : List (Op K (X → K))) (f : K) (dom : Nat) (s : Nat) (hs : s < 4) :
+    mprod (revOf s) ((if (!(msem isReal re blocks leaf).keq f (msem isReal re blocks leaf).kone || l.isEmpty) then
+        l ++ [Op.scaling dom f 0] else l).map (den S · (1 <<< s))) =
+      modeScalar f s • mprod (revOf s) (l.map (den S · (1 <<< s))) := by
+  have hk : (msem isReal re blocks leaf).keq f (msem isReal re blocks leaf).kone = decide (f = 1) := rfl
+  rw [hk]
+  by_cases hc : (!decide (f = 1) || l.isEmpty) = true
+  · simp only [hc, if_true, List.map_append, List.map_cons, List.map_nil]
+    rw [mprod_append, mprod_singleton, den_scaling isReal re blocks leaf dom f 0 s hs]
+    cases revOf s <;> simp
+  · have hc' : (!decide (f = 1) || l.isEmpty) = false := by simpa using hc
+    simp only [hc', Bool.false_eq_true, if_false]
+    have hf : f = 1 := by
+      simp only [Bool.or_eq_false_iff, Bool.not_eq_false', decide_eq_true_eq] at hc'
+      exact hc'.1
+    rw [hf, modeScalar_one s hs, one_smul]
+
+theorem chainMergeDiag_sound' (mk : List (Op K (X → K)) → Op K (X → K)) (l : List (Op K (X → K))) (s : Nat) (hs : s < 4)
+    (hd : ∀ o ∈ l, okC o = true) :
+    mprod (revOf s) ((chainMergeBlock S mk (chainMergeDiag S l)).map (den S · (1 <<< s))) =
+      mprod (revOf s) (l.map (den S · (1 <<< s))) ∧ (l ≠ [] → chainMergeBlock S mk (chainMergeDiag S l) ≠ []) := by
+  obtain ⟨h1, h2⟩ := chainMergeDiag_sound isReal re blocks leaf l s hs hd
+  have hnb := chainMergeBlock_noblock isReal re blocks leaf mk _ (fun o ho => by
+    have := h2 o ho
+    simp only [okC, Bool.and_eq_true, Bool.not_eq_true'] at this
+    exact this.2)
+  rw [hnb]
+  exact ⟨h1, chainMergeDiag_ne isReal re blocks leaf l⟩
+
+/-- collapsing a chain that contains a NullOperator keeps the product (both are zero) -/
+theorem chainNullCollapse_sound (ops1 : List (Op K (X → K))) (s : Nat) (hs : s < 4) (hok : ∀ o ∈ ops1, okC o = true) :
+    mprod (revOf s) ((chainNullCollapse ops1).map (den S · (1 <<< s))) = mprod (revOf s) (ops1.map (den S · (1 <<< s))) ∧
+    (∀ o ∈ chainNullCollapse ops1, okC o = true) := by
+  unfold chainNullCollapse
+  by_cases hnull : ops1.any isNull = true
+  · simp only [hnull, if_true]
+    obtain ⟨o, ho, hon⟩ := List.any_eq_true.mp hnull
+    have hz : (0 : Matrix X X K) ∈ ops1.map (den S · (1 <<< s)) := by
+      refine List.mem_map.mpr ⟨o, ho, ?_⟩
+      cases o <;> simp [isNull] at hon
+      exact den_null isReal re blocks leaf _ _ _
+    refine ⟨?_, ?_⟩
+    · rw [mprod_zero_mem _ _ hz]
+      apply mprod_zero_mem
+      simp [den_null]
+    · intro o ho
+      simp only [List.mem_singleton] at ho
+      subst ho
+      simp [okC, diagOK, isBlock]
+  · have hnull' : ops1.any isNull = false := by simpa using hnull
+    simp only [hnull', Bool.false_eq_true, if_false]
+    constructor
+    · first | rfl | trivial
+    · exact hok
+
+/-- collect / absorb / merge: the mode-ordered product is preserved -/
+theorem chainPost_sound (hre : ∀ c, isReal c = true → re c = c) (mk : List (Op K (X → K)) → Op K (X → K))
+    (ops1 : List (Op K (X → K))) (s : Nat) (hs : s < 4) (hok : ∀ o ∈ ops1, okC o = true) :
+    mprod (revOf s) ((chainPost S mk ops1).map (den S · (1 <<< s))) = mprod (revOf s) (ops1.map (den S · (1 <<< s))) ∧
+    chainPost S mk ops1 ≠ [] := by
+  simp only [chainPost]
+  have hcol := chainCollect_sound isReal re blocks leaf hre ops1 (msem isReal re blocks leaf).kone s hs
+  have hone : modeScalar (msem isReal re blocks leaf).kone s = 1 := modeScalar_one s hs
+  rw [hone, one_smul] at hcol
+  rw [← hcol]
+  generalize ops1.foldl (chainCollectStep S) (msem isReal re blocks leaf).kone = fct
+  have hfilt : ∀ o ∈ ops1.filter (fun o => !isRealScaling S o), okC o = true :=
+    fun o ho => hok o (List.mem_of_mem_filter ho)
+  generalize ops1.filter (fun o => !isRealScaling S o) = opsnew at hfilt ⊢
+  have hk : ∀ f : K, (msem isReal re blocks leaf).keq f (msem isReal re blocks leaf).kone = decide (f = 1) := fun _ => rfl
+  by_cases hf : fct = 1
+  · subst hf
+    simp only [hk, decide_true, Bool.not_true, Bool.false_eq_true, if_false]
+    have happ := chainAppend_sound isReal re blocks leaf opsnew (1 : K) (lastDom ops1) s hs
+    simp only [hk, decide_true, Bool.not_true] at happ
+    have hm := chainMergeDiag_sound' isReal re blocks leaf mk
+      (if (!decide ((1 : K) = 1) || opsnew.isEmpty) = true then opsnew ++ [Op.scaling (lastDom ops1) 1 0] else opsnew) s hs ?_
+    · simp only [decide_true, Bool.not_true] at hm
+      exact ⟨hm.1.trans happ, hm.2 (appendScaling_ne _ _ _)⟩
+    intro o ho
+    split at ho
+    · simp only [List.mem_append, List.mem_singleton] at ho
+      rcases ho with ho | rfl
+      · exact hfilt o ho
+      · simp [okC, diagOK, isBlock]
+    · exact hfilt o ho
+  · have hdf : decide (fct = 1) = false := by simpa using hf
+    simp only [hk, hdf, Bool.not_false, if_true]
+    obtain ⟨ha1, ha2⟩ := chainAbsorb_sound isReal re blocks leaf fct opsnew s hs hfilt
+    have happ := chainAppend_sound isReal re blocks leaf (chainAbsorb S fct opsnew).1 (chainAbsorb S fct opsnew).2
+      (lastDom ops1) s hs
+    simp only [hk] at happ
+    have hm := chainMergeDiag_sound' isReal re blocks leaf mk
+      (if (!decide ((chainAbsorb S fct opsnew).2 = 1) || (chainAbsorb S fct opsnew).1.isEmpty) = true then
+        (chainAbsorb S fct opsnew).1 ++ [Op.scaling (lastDom ops1) (chainAbsorb S fct opsnew).2 0]
+      else (chainAbsorb S fct opsnew).1) s hs ?_
+    · exact ⟨hm.1.trans (happ.trans ha1), hm.2 (appendScaling_ne _ _ _)⟩
+    intro o ho
+    split at ho
+    · simp only [List.mem_append, List.mem_singleton] at ho
+      rcases ho with ho | rfl
+      · exact ha2 o ho
+      · simp [okC, diagOK, isBlock]
+    · exact ha2 o ho
+
+/-- **ChainOperator.simplify preserves the action** (lists without block-diagonal operators): the mode-ordered product of the
+    simplified list equals that of the original list, in all four modes -/
+theorem chainSimplifyCore_sound (hre : ∀ c, isReal c = true → re c = c) (mk : List (Op K (X → K)) → Op K (X → K))
+    (ops : List (Op K (X → K))) (s : Nat) (hs : s < 4)
+    (hne : ∀ o ∈ ops, ∀ l, o = Op.chain l → l ≠ [])
+    (hok : ∀ o ∈ chainFlatten ops, okC o = true) :
+    mprod (revOf s) ((chainSimplifyCore S mk ops).map (den S · (1 <<< s))) = mprod (revOf s) (ops.map (den S · (1 <<< s))) ∧
+    chainSimplifyCore S mk ops ≠ [] := by
+  unfold chainSimplifyCore
+  obtain ⟨hn1, hn2⟩ := chainNullCollapse_sound isReal re blocks leaf (chainFlatten ops) s hs hok
+  obtain ⟨hp1, hp2⟩ := chainPost_sound isReal re blocks leaf hre mk _ s hs hn2
+  exact ⟨by rw [hp1, hn1, chainFlatten_sound isReal re blocks leaf ops s hs hne], hp2⟩
+
+theorem isIdentity_den (o : Op K (X → K)) (h : isIdentity S o = true) (m : Nat) : den S o m = 1 := by
+  cases o <;> simp [isIdentity] at h
+  rename_i d c dt
+  have hc : c = 1 := by simpa [msem] using h
+  subst hc
+  simp [den, msem]
+
+/-- **ChainOperator.make preserves the action**: for a non-empty list of operators (no block-diagonals, nested chains non-empty),
+    every mode of `ChainOperator.make(ops)` is the product of the operands' actions, in list order for TIMES and
+    ADJOINT_INVERSE_TIMES and in reversed order for ADJOINT_TIMES and INVERSE_TIMES -/
+theorem mkChainU_sound (hre : ∀ c, isReal c = true → re c = c) (fuel : Nat) (ops : List (Op K (X → K))) (s : Nat) (hs : s < 4)
+    (hne0 : ops ≠ []) (hne : ∀ o ∈ ops, ∀ l, o = Op.chain l → l ≠ [])
+    (hok : ∀ o ∈ chainFlatten ops, okC o = true) :
+    den S (mkChainU S (fuel + 1) ops) (1 <<< s) = mprod (revOf s) (ops.map (den S · (1 <<< s))) := by
+  have hL : mprod (revOf s) ((chainSimplify S (mkChainU S fuel) ops).map (den S · (1 <<< s))) =
+      mprod (revOf s) (ops.map (den S · (1 <<< s))) ∧ chainSimplify S (mkChainU S fuel) ops ≠ [] := by
+    unfold chainSimplify
+    split
+    · exact ⟨rfl, by simp⟩
+    · rename_i a b
+      split
+      · rename_i ha
+        refine ⟨?_, by simp⟩
+        simp only [List.map_cons, List.map_nil, mprod_cons, mprod_nil, isIdentity_den isReal re blocks leaf a ha]
+        cases revOf s <;> simp
+      · split
+        · rename_i hb
+          refine ⟨?_, by simp⟩
+          simp only [List.map_cons, List.map_nil, mprod_cons, mprod_nil, isIdentity_den isReal re blocks leaf b hb]
+          cases revOf s <;> simp
+        · exact chainSimplifyCore_sound isReal re blocks leaf hre _ _ s hs hne hok
+    · exact chainSimplifyCore_sound isReal re blocks leaf hre _ _ s hs hne hok
+  obtain ⟨hL1, hL2⟩ := hL
+  rw [mkChainU]
+  rw [← hL1]
+  split
+  · rename_i o heq
+    rw [heq]; simp [mprod_singleton]
+  · rename_i l hl
+    exact den_chain_mprod isReal re blocks leaf _ s hs hL2
+
 end matrix
 
 end NiftyVerif.C01
